@@ -57,4 +57,7 @@ def broadcastShared : List (String × Bool) := [("err", true), ("replies", true)
 /-- locals of Listen written by a goroutine it starts and accessed by another one: (name, every access inside a mutex section) -/
 def listenShared : List (String × Bool) := [("closed", false)]
 
+/-- size of the receive buffer each method reads a datagram into (0 = not recognised) -/
+def bufSizes : List (String × Nat) := [("Broadcast", 2048), ("BroadcastTo", 2048), ("SendUDP", 1024), ("SendTCP", 1024), ("Listen", 2048)]
+
 end Uhppote.Gen.Driver
